@@ -79,6 +79,8 @@ class Wsgi:
         self.methods = [f for f in self.cls.methods.values() if f.name != '__init__']
         self._reading = None
         self._budget_props = None
+        self._ctor_only = None
+        self._unrelated = None
         # pure helpers (no raw read, directly or through other methods) may be looked through
         self.inliner = Inliner(p, self.cls, lambda h: h.name != '__init__' and h.qual not in self.gates and h.qual not in self.reading_methods())
 
@@ -183,6 +185,94 @@ class Wsgi:
                 out.append((c, 'direct', c.func.attr))
         return out
 
+    def ctor_only_attrs(self):
+        """Plain attributes of the wrapper that no method but the constructor stores: fixed at construction time, they
+        cannot follow the budget as it goes down."""
+        if self._ctor_only is None:
+            later = set()
+            for f in self.methods:
+                for x in walk_self(f.node):
+                    if isinstance(x, ast.Attribute) and isinstance(x.ctx, (ast.Store, ast.Del)) and dotted(x.value) == 'self':
+                        later.add(x.attr)
+                    if isinstance(x, ast.Constant) and isinstance(x.value, str) and x.value.isidentifier():
+                        later.add(x.value)          # setattr(self, 'name', ...) and the like: cannot tell
+            init = self.cls.methods['__init__']
+            stored = {x.attr for x in walk_self(init.node) if isinstance(x, ast.Attribute) and isinstance(x.ctx, ast.Store) and dotted(x.value) == 'self'}
+            self._ctor_only = {a for a in stored if a not in later and a not in self.cls.methods and 'self.' + a not in (self.raw, BUDGET)}
+        return self._ctor_only
+
+    def budget_unrelated(self, f, call):
+        """For a direct sized call `self.<raw>.<read method>(n)` in method f: the text of `n` when it is computed without
+        any reference to the live budget -- from constants and construction-time attributes of the wrapper only (through
+        the locals of the method) -- and no test of the method relates it to the budget either.  None when `n` is (or may
+        be) related to the budget, is the constant 0, or involves a parameter / a call / another member of the class
+        (those are R2's business: partition analysis of the clamp)."""
+        arg = call.args[0]
+        if isinstance(arg, ast.Constant) and arg.value == 0 and not isinstance(arg.value, bool):
+            return None                 # read(0) obtains nothing
+        c = Consumption(self, f)
+        defs = c.defs([f.node])
+        params = set(f.params()) - {'self'}
+        names, attrs, work, exprs = set(), set(), list(_names(arg)), [arg]
+        while work:
+            n = work.pop()
+            if n in names or n == 'self':
+                continue
+            names.add(n)
+            if n in params:
+                return None             # a caller-supplied size: the cells of R2 decide
+            for r in defs.get(n, []):
+                exprs.append(r)
+                work.extend(_names(r))
+        for e in exprs:
+            if self.mentions_budget(e):
+                return None
+            for x in walk_self(e):
+                if isinstance(x, ast.Call) and not (isinstance(x.func, ast.Name) and x.func.id in _PURE):
+                    return None
+                if isinstance(x, (ast.Await, ast.Yield, ast.YieldFrom, ast.Lambda, ast.Starred, ast.NamedExpr)):
+                    return None
+                if isinstance(x, ast.Attribute):
+                    if dotted(x.value) == 'self' and x.attr in self.ctor_only_attrs():
+                        attrs.add(x.attr)
+                    elif not (isinstance(x.value, ast.Attribute) and dotted(x.value.value) == 'self' and x.value.attr in self.ctor_only_attrs()):
+                        return None     # another member of the class / of something else: cannot tell
+        if not all(n in defs or n in ('True', 'False', 'None') for n in names):
+            return None                 # a free (module-level) name: cannot tell
+        # a test that looks at the size (or what it is computed from) together with the budget / a member of the class
+        budgetish = c.closure(defs, lambda r: self.mentions_budget(r))
+        if names & budgetish:
+            return None
+        tests = []
+        for x in walk_self(f.node):
+            if isinstance(x, (ast.If, ast.While, ast.IfExp, ast.Assert)):
+                tests.append(x.test)
+            elif isinstance(x, ast.comprehension):
+                tests.extend(x.ifs)
+            elif isinstance(x, (ast.Compare, ast.BoolOp)):
+                tests.append(x)
+        for t in tests:
+            mine = (_names(t) & names) or any(isinstance(y, ast.Attribute) and dotted(y.value) == 'self' and y.attr in attrs for y in walk_self(t))
+            if not mine:
+                continue
+            other = self.mentions_budget(t) or (_names(t) & budgetish) or any(
+                isinstance(y, ast.Attribute) and dotted(y.value) == 'self' and y.attr not in attrs and 'self.' + y.attr != self.raw for y in walk_self(t))
+            if other:
+                return None
+        return unparse(arg)
+
+    def unrelated_sites(self):
+        """id(call) -> (method, call, size text) for the direct sized raw calls R1 reports as unrelated to the budget."""
+        if self._unrelated is None:
+            self._unrelated = {}
+            for f in self.methods:
+                for (c, kind, _m) in self.read_sites(f):
+                    if kind == 'direct' and len(c.args) == 1 and not c.keywords:
+                        txt = self.budget_unrelated(f, c)
+                        if txt is not None:
+                            self._unrelated[id(c)] = (f, c, txt)
+        return self._unrelated
+
 
 def r1_single_gate(run):
     w = Wsgi(run)
@@ -203,6 +293,15 @@ def r1_single_gate(run):
                     run.ok(what + ' (bound method handed to the clamping helper %s)' % gate[0].name, f.loc(up2), up2)
                     continue
                 if up2.func is up and up.attr in CONTRACT and len(up2.args) == 1 and not up2.keywords:
+                    loose = w.unrelated_sites().get(id(up2))
+                    if loose is not None:
+                        run.fail('a direct sized call on the raw stream asks for `%s`: a size computed without reference to the remaining budget (constants / '
+                                 'construction-time attributes only) that no test of the method relates to the budget -- the call bypasses the clamp'
+                                 % loose[2], f, up2,
+                                 runtime_witness='Content-Length 13 over b"id,name\\n1,ann\\n..." (a pipelined request follows): after the first line '
+                                                 'has been consumed this call still asks wsgi.input for up to `%s` bytes, more than what is left of the '
+                                                 'declared body; it returns bytes beyond Content-Length and the budget goes negative' % loose[2])
+                        continue
                     run.ok(what + ' (direct sized call, analysed by R2/R3)', f.loc(up2), up2)
                     continue
                 if up2.func is up and up.attr in NON_READING:
@@ -312,6 +411,7 @@ def r2_clamp_domain(run):
     w = Wsgi(run)
     run.assume('C07 R2/R3: the budget %s is a non-negative integer on entry (established by R2+R3 inductively)' % BUDGET)
     pending = []
+    loose = w.unrelated_sites()
     for f, sites in _reader_funcs(w):
         cfg = cfg_of(f, run.project)
         run.use_cfg(cfg)
@@ -326,14 +426,16 @@ def r2_clamp_domain(run):
                     env.is_none[s.lone()] = False
                 return cset(env, s, rem)
 
-            bad, unknown, n = {}, [], 0
+            bad, unknown, n, deferred = {}, [], 0, 0
             for env, reads in _exec_reader(w, f, cfg, setup):
                 rem0 = env.var(BUDGET)
                 s0 = env.var(sp) if sp else None
                 for (call, arg, _res) in reads:
                     n += 1
                     verdict = _judge_size(env, arg, rem0, s0, cname in EXACT)
-                    if verdict == 'unknown':
+                    if verdict == 'unknown' and id(call) in loose:
+                        deferred += 1           # R1 reports this call: its size does not derive from the budget at all
+                    elif verdict == 'unknown':
                         unknown.append('%s: cannot bound %r for %s %s' % (f.qual, arg, sp, cname))
                     elif verdict != 'ok':
                         bad.setdefault('%s [%s %s]' % (unparse(call), sp or 'size', cname), (call, arg, verdict[1]))
@@ -352,7 +454,7 @@ def r2_clamp_domain(run):
                           % (f.name, sp, sp, cname)))
             if unknown and not bad:
                 pending.append(unknown[0])
-            elif not bad:
+            elif not bad and not deferred:
                 run.ok('for %s %s every size handed to the raw stream%s lies in [0, remaining budget]%s (%d read(s) on the feasible paths)'
                        % (sp or 'size', cname, through, ' and is exactly the requested size' if cname in EXACT else '', n), where, '%s [%s]' % (f.name, cname))
     if pending:
@@ -899,6 +1001,32 @@ def _skipped_or_empty(expr, truth, site, name):
     return _empty_on_edge(expr, truth, name, None)
 
 
+# constructors of lazily consumed objects: what they wrap reaches the caller only as far as the caller goes on iterating
+_LAZY = {'builtins.iter', 'builtins.map', 'builtins.filter', 'builtins.zip', 'builtins.enumerate', 'builtins.reversed'}
+
+
+def _lazy_wrapper(p, f, node, parent):
+    """Inside its statement, is `node` (a read, or a local holding its result) handed out only wrapped in a lazily consumed
+    object -- `iter(x)`, `map(g, x)`, `(l for l in x)`, `itertools.*`, `yield from x` -- with no eager consumer (`list(...)`,
+    `b''.join(...)`, a comprehension) around that?  Returns the wrapping node or None."""
+    lazy, cur = None, node
+    for a in ancestors(node, parent):
+        if isinstance(a, ast.stmt):
+            break
+        if isinstance(a, ast.Call):
+            if cur is a.func:
+                lazy = None
+            else:
+                q = p.resolve_expr(f.module, a.func, f) or ''
+                lazy = a if (q in _LAZY and not (q == 'builtins.iter' and len(a.args) == 2)) or q.startswith('itertools.') else None
+        elif isinstance(a, (ast.GeneratorExp, ast.YieldFrom)):
+            lazy = a
+        elif isinstance(a, (ast.ListComp, ast.SetComp, ast.DictComp, ast.Subscript, ast.Attribute, ast.BinOp, ast.Compare)):
+            lazy = None
+        cur = a
+    return lazy
+
+
 def _no_loss(run, w, v):
     """No loss: inside the wrapper, the result of every read (a gated raw read, or a call of / an iteration over one of the
     class's own reading methods) is handed on -- returned, yielded, stored into what is returned -- on every normal path on
@@ -906,12 +1034,18 @@ def _no_loss(run, w, v):
     is overwritten, or still unused when the method returns, is a hole in the body the application sees.  (`for line in
     iter(self.readline, b'')` obtains the next line BEFORE the loop body decides anything: a `break` / `continue` ahead of
     the first use drops it.)  Methods tabled in DISCARDERS promise to discard and are exempt.
-    Witness: body b'a\\nb\\nc\\n', readlines(1) then read(): the application never sees b'b\\n'."""
+    Handing a result on means handing the DATA on: a result that leaves the method only wrapped in a lazily consumed object
+    (`return iter(self.readlines())`, `yield from self.readlines()`) has been taken from wsgi.input and charged to the budget
+    in full, but reaches the caller only as far as the caller goes on iterating.
+    Witness: body b'a\\nb\\nc\\n', readlines(1) then read(): the application never sees b'b\\n';
+    `for line in stream: break` then read(): eof is true and everything after the first line is gone."""
     p = run.project
     exempt = _discarders(w)
     what = 'whatever a read obtained is handed on (returned / yielded / collected) on every normal path on which it is not provably empty'
     rw = ('body b"a\\nb\\nc\\n" with Content-Length 6: after this operation a following read() continues one read further on -- bytes taken '
           'from wsgi.input and charged to the budget are never handed to the application, eof is reported with part of the body undelivered')
+    rw_lazy = ('body b"a\\nb\\nc\\n": `for line in stream: break` (or one next() on the returned object), then read(): b"" and eof is true -- '
+               'every line after the first was read from wsgi.input into a private list and is never handed to the application')
     for f in sorted(w.methods, key=lambda f: f.qual):
         parent = enclosing_map(f.node)
 
@@ -964,6 +1098,13 @@ def _no_loss(run, w, v):
             if isinstance(up, ast.Await):
                 inner, up = up, parent.get(id(up))
             if isinstance(st, ast.Return) or within(c, (ast.Yield, ast.YieldFrom)) is not None:
+                lz = _lazy_wrapper(p, f, c, parent)
+                if lz is not None:
+                    v.note(f, 'no loss', what, False, lz,
+                           'the result of `%s` leaves the method only inside a lazily consumed object (`%s`): the read has taken the data from '
+                           'wsgi.input and charged the budget for all of it, the caller receives only as much as it goes on to iterate'
+                           % (short(c, 50), short(lz, 60)), None, rw_lazy)
+                    continue
                 v.note(f, 'no loss', what, True)
                 continue
             if isinstance(st, ast.Expr) and st.value is inner:
@@ -1016,6 +1157,8 @@ def _no_loss(run, w, v):
                         up = parent.get(id(y))
                         if isinstance(up, ast.Call) and isinstance(up.func, ast.Name) and up.func.id in ('len', 'bool') and up.args == [y]:
                             continue
+                        if isinstance(stmt_of(y), (ast.Return, ast.Expr)) and _lazy_wrapper(p, f, y, parent) is not None:
+                            continue            # return iter(lines) / yield from lines: no hand-over of the data
                         uses.add(n.id)
             dead_edges = set()
             for n in cfg.live_nodes():
